@@ -21,7 +21,8 @@ def load_corpus(pid, tier="quick"):
                 k = keys.get(t, keys.get("*", [])) if isinstance(keys, dict) else keys
                 out.append(dict(id="%s-%s" % (c["id"], t), type=t, order=c["order"], keys=[] if t == "comparable" else list(k),
                                 init=list(c["init"]), progs={int(a): list(b) for a, b in c["progs"].items()},
-                                sched=[x if tier == "quick" or not x.startswith("all") else "all -1 30000" for x in c["sched"]],
+                                sched=[x if tier == "quick" or not x.startswith("all") else "all -1 30000" for x in c["sched"]]
+                                      + ([] if tier == "quick" else ["pct 11 1500 3 100"]),
                                 dump=c.get("dump", "steps"), corpus=c["id"]))
     return out
 
